@@ -36,13 +36,14 @@ ACTIVE_EXCLUSIONS = {
     'C14-deepnodelist-pool-collision',
     'C14-range-splitText-detached',
     'C14-range-splitText-start-after-end',
+    'C14-removeAttributeNS-keeps-id',
 }
 _no = os.environ.get('VERIF_C14_NOEXCL', '')
 if _no == 'all': ACTIVE_EXCLUSIONS = set()
 elif _no: ACTIVE_EXCLUSIONS -= set(_no.split(','))
 
 WALKERS = os.environ.get('VERIF_C14_WALKERS', '0') != '0'
-OPTABLE = dh.expand(dh.CORE_OPS) + dh.expand(dh.VIEW_CORE_OPS) * 2 + (dh.expand(dh.WALKER_OPS) if WALKERS else [])
+OPTABLE = dh.expand(dh.CORE_OPS) + dh.expand(dh.VIEW_CORE_OPS) * 2 + (dh.expand(dh.WALKER_OPS) if WALKERS else []) + dh.expand(dh.ID_OPS)
 MAXOPS = {'quick': 60, 'thorough': 200}
 
 def op_strategy():
@@ -52,13 +53,14 @@ def op_strategy():
 def case_strategy(maxops):
     return st.fixed_dictionaries({
         'ndocs': st.integers(1, 2),
-        'flags': st.one_of(st.none(), st.integers(0, 127)),
+        'flags': st.one_of(st.none(), st.integers(0, 255)),
+        'idpre': st.sampled_from([0, 1, 1, 2, 3]),
         'pre': st.integers(0, 3), 'vpre': st.integers(0, 3),
         'ops': st.integers(1, maxops).flatmap(lambda n: st.lists(op_strategy(), min_size=n, max_size=n)),
     })
 
 def make_case(c):
-    return {'setup': {'ndocs': c['ndocs'], 'flags': c['flags'], 'pre': c['pre'], 'vpre': c['vpre']}, 'ops': [list(o) for o in c['ops']], 'excl': sorted(ACTIVE_EXCLUSIONS), 'gen': 2}
+    return {'setup': {'ndocs': c['ndocs'], 'flags': c['flags'], 'pre': c['pre'], 'idpre': c['idpre'], 'vpre': c['vpre']}, 'ops': [list(o) for o in c['ops']], 'excl': sorted(ACTIVE_EXCLUSIONS), 'gen': 2, 'idq': True}
 
 class H(dh.ViewHist):
     vpre = 0
